@@ -28,7 +28,8 @@ static void gen(G1& p, int t) { if (t % 5 == 0) { p.copy(G1::zero); return; } Bi
 static void gen(G2& p, int t) { if (t % 5 == 0) { p.copy(G2::zero); return; } BigInt<256> k; rng_cb(k.bytes, 32); p.multiply_doubleadd(G2::one, k); }
 static void gen(G1Affine& a, int t) { G1 p; gen(p, t); memset(&a, 0, sizeof a); a.from_projective(p); }
 static void gen(G2Affine& a, int t) { G2 p; gen(p, t); memset(&a, 0, sizeof a); a.from_projective(p); }
-static void gen(Fq12& a, int t) { if (t % 5 == 0) { a.copy(Fq12::one); return; } BigInt<256> k; rng_cb(k.bytes, 32); a.exponentiate_gt_nodiv(generator_pairing, k); }
+static void gen(Fq12& a, int t) { if (t % 5 == 0) { a.copy(Fq12::one); return; } if (t % 5 == 2) { a.random(rng_cb); return; }   // GT-typed arguments may hold any Fq12 value (gt_unmarshal checks nothing)
+    BigInt<256> k; rng_cb(k.bytes, 32); a.exponentiate_gt_nodiv(generator_pairing, k); }
 static void gen(BigInt<256>& k, int t) { if (t % 5 == 0) memset(&k, 0, sizeof k); else if (t % 5 == 1) memset(&k, 0xff, sizeof k); else rng_cb(k.bytes, 32); }
 
 template <typename T> static bool eq(const T& a, const T& b) { return memcmp(&a, &b, sizeof(T)) == 0; }
@@ -44,30 +45,30 @@ static void bls_rows(void) {
     G1 a1, b1, o1, r1; G2 a2, b2, o2, r2; G1Affine p1, q1, po1, pr1; G2Affine p2, q2, po2, pr2; BigInt<256> k, ko, kr; Fq12 e, f, eo, er;
 #define CLR() memset(&o1, 0x11, sizeof o1); memset(&r1, 0x11, sizeof r1); memset(&o2, 0x11, sizeof o2); memset(&r2, 0x11, sizeof r2); memset(&po1, 0x11, sizeof po1); memset(&pr1, 0x11, sizeof pr1); \
     memset(&po2, 0x11, sizeof po2); memset(&pr2, 0x11, sizeof pr2); memset(&eo, 0x11, sizeof eo); memset(&er, 0x11, sizeof er); memset(&ko, 0x11, sizeof ko); memset(&kr, 0x11, sizeof kr);
-    ROW(embedded_pairing_bls12_381_g1_add, { CLR(); gen(a1, t + 1); gen(b1, t); embedded_pairing_bls12_381_g1_add((cg1*) &o1, (cg1*) &a1, (cg1*) &b1); r1.add(a1, b1); ok = eq(o1, r1); })
-    ROW(embedded_pairing_bls12_381_g1_add_mixed, { CLR(); gen(a1, t + 1); gen(q1, t); embedded_pairing_bls12_381_g1_add_mixed((cg1*) &o1, (cg1*) &a1, (cg1a*) &q1); r1.add(a1, q1); ok = eq(o1, r1); })
-    ROW(embedded_pairing_bls12_381_g1_negate, { CLR(); gen(a1, t); embedded_pairing_bls12_381_g1_negate((cg1*) &o1, (cg1*) &a1); r1.negate(a1); ok = eq(o1, r1); })
-    ROW(embedded_pairing_bls12_381_g1_double, { CLR(); gen(a1, t); embedded_pairing_bls12_381_g1_double((cg1*) &o1, (cg1*) &a1); r1.multiply2(a1); ok = eq(o1, r1); })
-    ROW(embedded_pairing_bls12_381_g1_multiply, { CLR(); gen(a1, t + 1); gen(k, t); embedded_pairing_bls12_381_g1_multiply((cg1*) &o1, (cg1*) &a1, (ck*) &k); r1.multiply(a1, k); ok = eq(o1, r1); })
+    ROW(embedded_pairing_bls12_381_g1_add, { CLR(); gen(a1, t + 1); gen(b1, t); int pat = (t / 5 + t) % 4; auto* pb = (pat & 2) ? &a1 : &b1; r1.add(a1, *pb); auto* po = (pat & 1) ? &a1 : &o1; embedded_pairing_bls12_381_g1_add((cg1*) po, (cg1*) &a1, (cg1*) pb); ok = eq(*po, r1); })   // aliasing: out=a, a=b (same object), out=a=b
+    ROW(embedded_pairing_bls12_381_g1_add_mixed, { CLR(); gen(a1, t + 1); gen(q1, t); r1.add(a1, q1); auto* po = ((t / 5 + t) & 1) ? &a1 : &o1; embedded_pairing_bls12_381_g1_add_mixed((cg1*) po, (cg1*) &a1, (cg1a*) &q1); ok = eq(*po, r1); })   // odd trials in place
+    ROW(embedded_pairing_bls12_381_g1_negate, { CLR(); gen(a1, t); r1.negate(a1); auto* po = ((t / 5 + t) & 1) ? &a1 : &o1; embedded_pairing_bls12_381_g1_negate((cg1*) po, (cg1*) &a1); ok = eq(*po, r1); })   // odd trials in place
+    ROW(embedded_pairing_bls12_381_g1_double, { CLR(); gen(a1, t); r1.multiply2(a1); auto* po = ((t / 5 + t) & 1) ? &a1 : &o1; embedded_pairing_bls12_381_g1_double((cg1*) po, (cg1*) &a1); ok = eq(*po, r1); })   // odd trials in place
+    ROW(embedded_pairing_bls12_381_g1_multiply, { CLR(); gen(a1, t + 1); gen(k, t); r1.multiply(a1, k); auto* po = ((t / 5 + t) & 1) ? &a1 : &o1; embedded_pairing_bls12_381_g1_multiply((cg1*) po, (cg1*) &a1, (ck*) &k); ok = eq(*po, r1); })   // odd trials in place
     ROW(embedded_pairing_bls12_381_g1_multiply_affine, { CLR(); gen(p1, t + 1); gen(k, t); embedded_pairing_bls12_381_g1_multiply_affine((cg1*) &o1, (cg1a*) &p1, (ck*) &k); r1.multiply(p1, k); ok = eq(o1, r1); })
     ROW(embedded_pairing_bls12_381_g1_random, { CLR(); RESEED(t); embedded_pairing_bls12_381_g1_random((cg1*) &o1, rng_cb); RESEED(t); r1.random_generator(rng_cb); ok = eq(o1, r1); })
     ROW(embedded_pairing_bls12_381_g1_equal, { gen(a1, t); gen(b1, t % 2 ? t : t + 1); if (t % 2) b1.copy(a1); ok = embedded_pairing_bls12_381_g1_equal((cg1*) &a1, (cg1*) &b1) == G1::equal(a1, b1); })
     ROW(embedded_pairing_bls12_381_g1_from_affine, { CLR(); gen(p1, t); embedded_pairing_bls12_381_g1_from_affine((cg1*) &o1, (cg1a*) &p1); r1.from_affine(p1); ok = eq(o1, r1); })
     ROW(embedded_pairing_bls12_381_g1affine_from_projective, { CLR(); gen(a1, t); embedded_pairing_bls12_381_g1affine_from_projective((cg1a*) &po1, (cg1*) &a1); pr1.from_projective(a1); ok = eqa(po1, pr1); })
-    ROW(embedded_pairing_bls12_381_g1affine_negate, { CLR(); gen(p1, t); embedded_pairing_bls12_381_g1affine_negate((cg1a*) &po1, (cg1a*) &p1); pr1.negate(p1); ok = eqa(po1, pr1); })
+    ROW(embedded_pairing_bls12_381_g1affine_negate, { CLR(); gen(p1, t); pr1.negate(p1); auto* po = ((t / 5 + t) & 1) ? &p1 : &po1; embedded_pairing_bls12_381_g1affine_negate((cg1a*) po, (cg1a*) &p1); ok = eqa(*po, pr1); })   // odd trials in place
     ROW(embedded_pairing_bls12_381_g1affine_from_hash, { CLR(); uint8_t h[48]; rng_cb(h, 48); embedded_pairing_bls12_381_g1affine_from_hash((cg1a*) &po1, h); pr1.from_hash(h); ok = eqa(po1, pr1); })
     ROW(embedded_pairing_bls12_381_g1affine_equal, { gen(p1, t); gen(q1, t + 1); if (t % 2) q1.copy(p1); ok = embedded_pairing_bls12_381_g1affine_equal((cg1a*) &p1, (cg1a*) &q1) == G1Affine::equal(p1, q1); })
-    ROW(embedded_pairing_bls12_381_g2_add, { CLR(); gen(a2, t + 1); gen(b2, t); embedded_pairing_bls12_381_g2_add((cg2*) &o2, (cg2*) &a2, (cg2*) &b2); r2.add(a2, b2); ok = eq(o2, r2); })
-    ROW(embedded_pairing_bls12_381_g2_add_mixed, { CLR(); gen(a2, t + 1); gen(q2, t); embedded_pairing_bls12_381_g2_add_mixed((cg2*) &o2, (cg2*) &a2, (cg2a*) &q2); r2.add(a2, q2); ok = eq(o2, r2); })
-    ROW(embedded_pairing_bls12_381_g2_negate, { CLR(); gen(a2, t); embedded_pairing_bls12_381_g2_negate((cg2*) &o2, (cg2*) &a2); r2.negate(a2); ok = eq(o2, r2); })
-    ROW(embedded_pairing_bls12_381_g2_double, { CLR(); gen(a2, t); embedded_pairing_bls12_381_g2_double((cg2*) &o2, (cg2*) &a2); r2.multiply2(a2); ok = eq(o2, r2); })
-    ROW(embedded_pairing_bls12_381_g2_multiply, { CLR(); gen(a2, t + 1); gen(k, t); embedded_pairing_bls12_381_g2_multiply((cg2*) &o2, (cg2*) &a2, (ck*) &k); r2.multiply(a2, k); ok = eq(o2, r2); })
+    ROW(embedded_pairing_bls12_381_g2_add, { CLR(); gen(a2, t + 1); gen(b2, t); int pat = (t / 5 + t) % 4; auto* pb = (pat & 2) ? &a2 : &b2; r2.add(a2, *pb); auto* po = (pat & 1) ? &a2 : &o2; embedded_pairing_bls12_381_g2_add((cg2*) po, (cg2*) &a2, (cg2*) pb); ok = eq(*po, r2); })   // aliasing: out=a, a=b (same object), out=a=b
+    ROW(embedded_pairing_bls12_381_g2_add_mixed, { CLR(); gen(a2, t + 1); gen(q2, t); r2.add(a2, q2); auto* po = ((t / 5 + t) & 1) ? &a2 : &o2; embedded_pairing_bls12_381_g2_add_mixed((cg2*) po, (cg2*) &a2, (cg2a*) &q2); ok = eq(*po, r2); })   // odd trials in place
+    ROW(embedded_pairing_bls12_381_g2_negate, { CLR(); gen(a2, t); r2.negate(a2); auto* po = ((t / 5 + t) & 1) ? &a2 : &o2; embedded_pairing_bls12_381_g2_negate((cg2*) po, (cg2*) &a2); ok = eq(*po, r2); })   // odd trials in place
+    ROW(embedded_pairing_bls12_381_g2_double, { CLR(); gen(a2, t); r2.multiply2(a2); auto* po = ((t / 5 + t) & 1) ? &a2 : &o2; embedded_pairing_bls12_381_g2_double((cg2*) po, (cg2*) &a2); ok = eq(*po, r2); })   // odd trials in place
+    ROW(embedded_pairing_bls12_381_g2_multiply, { CLR(); gen(a2, t + 1); gen(k, t); r2.multiply(a2, k); auto* po = ((t / 5 + t) & 1) ? &a2 : &o2; embedded_pairing_bls12_381_g2_multiply((cg2*) po, (cg2*) &a2, (ck*) &k); ok = eq(*po, r2); })   // odd trials in place
     ROW(embedded_pairing_bls12_381_g2_multiply_affine, { CLR(); gen(p2, t + 1); gen(k, t); embedded_pairing_bls12_381_g2_multiply_affine((cg2*) &o2, (cg2a*) &p2, (ck*) &k); r2.multiply(p2, k); ok = eq(o2, r2); })
     ROW(embedded_pairing_bls12_381_g2_random, { CLR(); RESEED(t); embedded_pairing_bls12_381_g2_random((cg2*) &o2, rng_cb); RESEED(t); r2.random_generator(rng_cb); ok = eq(o2, r2); })
     ROW(embedded_pairing_bls12_381_g2_equal, { gen(a2, t); gen(b2, t + 1); if (t % 2) b2.copy(a2); ok = embedded_pairing_bls12_381_g2_equal((cg2*) &a2, (cg2*) &b2) == G2::equal(a2, b2); })
     ROW(embedded_pairing_bls12_381_g2_from_affine, { CLR(); gen(p2, t); embedded_pairing_bls12_381_g2_from_affine((cg2*) &o2, (cg2a*) &p2); r2.from_affine(p2); ok = eq(o2, r2); })
     ROW(embedded_pairing_bls12_381_g2affine_from_projective, { CLR(); gen(a2, t); embedded_pairing_bls12_381_g2affine_from_projective((cg2a*) &po2, (cg2*) &a2); pr2.from_projective(a2); ok = eqa(po2, pr2); })
-    ROW(embedded_pairing_bls12_381_g2affine_negate, { CLR(); gen(p2, t); embedded_pairing_bls12_381_g2affine_negate((cg2a*) &po2, (cg2a*) &p2); pr2.negate(p2); ok = eqa(po2, pr2); })
+    ROW(embedded_pairing_bls12_381_g2affine_negate, { CLR(); gen(p2, t); pr2.negate(p2); auto* po = ((t / 5 + t) & 1) ? &p2 : &po2; embedded_pairing_bls12_381_g2affine_negate((cg2a*) po, (cg2a*) &p2); ok = eqa(*po, pr2); })   // odd trials in place
     ROW(embedded_pairing_bls12_381_g2affine_from_hash, { CLR(); uint8_t h[96]; rng_cb(h, 96); embedded_pairing_bls12_381_g2affine_from_hash((cg2a*) &po2, h); pr2.from_hash(h); ok = eqa(po2, pr2); })
     ROW(embedded_pairing_bls12_381_g2affine_equal, { gen(p2, t); gen(q2, t + 1); if (t % 2) q2.copy(p2); ok = embedded_pairing_bls12_381_g2affine_equal((cg2a*) &p2, (cg2a*) &q2) == G2Affine::equal(p2, q2); })
     {
@@ -87,10 +88,10 @@ static void bls_rows(void) {
         free(pc); free(pp);
     }
     ROW(embedded_pairing_bls12_381_pairing, { CLR(); gen(p1, t + 1); gen(p2, t + 2); embedded_pairing_bls12_381_pairing((cgt*) &eo, (cg1a*) &p1, (cg2a*) &p2); pairing(er, p1, p2); ok = eq(eo, er); })
-    ROW(embedded_pairing_bls12_381_gt_add, { CLR(); gen(e, t); gen(f, t + 1); embedded_pairing_bls12_381_gt_add((cgt*) &eo, (cgt*) &e, (cgt*) &f); er.multiply(e, f); ok = eq(eo, er); })
-    ROW(embedded_pairing_bls12_381_gt_negate, { CLR(); gen(e, t); embedded_pairing_bls12_381_gt_negate((cgt*) &eo, (cgt*) &e); er.inverse(e); ok = eq(eo, er); })
-    ROW(embedded_pairing_bls12_381_gt_double, { CLR(); gen(e, t); embedded_pairing_bls12_381_gt_double((cgt*) &eo, (cgt*) &e); er.square_cyclotomic(e); ok = eq(eo, er); })
-    ROW(embedded_pairing_bls12_381_gt_multiply, { CLR(); gen(e, t + 1); gen(k, t); embedded_pairing_bls12_381_gt_multiply((cgt*) &eo, (cgt*) &e, (ck*) &k); er.exponentiate_gt(e, k); ok = eq(eo, er); })
+    ROW(embedded_pairing_bls12_381_gt_add, { CLR(); gen(e, t); gen(f, t + 1); int pat = (t / 5 + t) % 4; auto* pb = (pat & 2) ? &e : &f; er.multiply(e, *pb); auto* po = (pat & 1) ? &e : &eo; embedded_pairing_bls12_381_gt_add((cgt*) po, (cgt*) &e, (cgt*) pb); ok = eq(*po, er); })   // aliasing: out=a, a=b (same object), out=a=b
+    ROW(embedded_pairing_bls12_381_gt_negate, { CLR(); gen(e, t); er.inverse(e); auto* po = ((t / 5 + t) & 1) ? &e : &eo; embedded_pairing_bls12_381_gt_negate((cgt*) po, (cgt*) &e); ok = eq(*po, er); })   // odd trials in place
+    ROW(embedded_pairing_bls12_381_gt_double, { CLR(); gen(e, t); er.square_cyclotomic(e); auto* po = ((t / 5 + t) & 1) ? &e : &eo; embedded_pairing_bls12_381_gt_double((cgt*) po, (cgt*) &e); ok = eq(*po, er); })   // odd trials in place
+    ROW(embedded_pairing_bls12_381_gt_multiply, { CLR(); gen(e, t + 1); gen(k, t); er.exponentiate_gt(e, k); auto* po = ((t / 5 + t) & 1) ? &e : &eo; embedded_pairing_bls12_381_gt_multiply((cgt*) po, (cgt*) &e, (ck*) &k); ok = eq(*po, er); })   // odd trials in place
     ROW(embedded_pairing_bls12_381_gt_multiply_random, { CLR(); gen(e, t + 1); RESEED(t); embedded_pairing_bls12_381_gt_multiply_random((cgt*) &eo, (ck*) &ko, (cgt*) &e, rng_cb); RESEED(t); er.random_gt(kr, e, rng_cb); ok = eq(eo, er) && eq(ko, kr); })
     ROW(embedded_pairing_bls12_381_gt_equal, { gen(e, t); gen(f, t + 1); if (t % 2) f.copy(e); ok = embedded_pairing_bls12_381_gt_equal((cgt*) &e, (cgt*) &f) == Fq12::equal(e, f); })
     ROW(embedded_pairing_bls12_381_gt_marshal, { uint8_t b1[576], b2[576]; gen(e, t); embedded_pairing_bls12_381_gt_marshal(b1, (cgt*) &e); e.write_big_endian(b2); ok = memcmp(b1, b2, 576) == 0; })
